@@ -109,7 +109,7 @@ Theorem contentless_extension_fails_generation fx mfx sha1 c o iss x :
   In x (cc_exts c) -> contentless x = true -> gen_tcert fx mfx sha1 c o iss = None.
 Proof.
   intros Hin Hc. unfold gen_tcert.
-  destruct (cc_serial c <? 0)%Z; [reflexivity|].
+  destruct ((cc_serial c <? 0)%Z || (9223372036854775807 <? cc_serial c)%Z); [reflexivity|].
   destruct (parse_rdn (cc_subject c)); [|reflexivity].
   destruct (to_time_struct _ _ _); [|reflexivity].
   destruct (sig_oid _) as [[so rsa]|]; [|reflexivity].
